@@ -696,6 +696,76 @@ theorem mergeSeq_depth_bounded (maxDepth : Nat) (hm : 1 ≤ maxDepth) (vs : List
 /-- the limit regenerated from `merge_object.rs` is usable -/
 theorem mergeSeq_limit : 1 ≤ Gen.mergeSeqMaxDepth ∧ Gen.mergeSeqMaxDepth ≤ 64 := by decide
 
+theorem indexOfName_lt {ids : List String} {name : String} {i : Nat} (h : indexOfName ids name = some i) :
+    i < ids.length := by
+  induction ids generalizing i with
+  | nil => simp [indexOfName] at h
+  | cons a as ih =>
+    simp only [indexOfName] at h
+    split at h
+    · simp at h; subst h; simp
+    · cases h2 : indexOfName as name with
+      | none => simp [h2] at h
+      | some j =>
+        simp only [h2, Option.map_some, Option.some.injEq] at h
+        subst h
+        have := ih h2
+        simp; omega
+
+/-- every id the code generator hands out is the sentinel or below the limit, and the table of names
+    never grows beyond the limit -/
+theorem getLocalId_bounded (limit : Nat) (hl : limit ≤ 255) (ids : List String) (name : String)
+    (hids : ids.length ≤ limit) :
+    ((getLocalId limit ids name).2 = noLocalId ∨ (getLocalId limit ids name).2 < limit) ∧
+    (getLocalId limit ids name).1.length ≤ limit := by
+  unfold getLocalId
+  cases h : indexOfName ids name with
+  | some i =>
+    have := indexOfName_lt h
+    exact ⟨Or.inr (by simp; omega), by simpa using hids⟩
+  | none =>
+    simp only
+    by_cases hge : ids.length ≥ limit
+    · simp [hge, hids]
+    · simp only [hge, if_false, List.length_append, List.length_singleton]
+      refine ⟨Or.inr ?_, by omega⟩
+      rw [Nat.mod_eq_of_lt (by omega)]
+      omega
+
+theorem assignLocalIds_bounded (limit : Nat) (hl : limit ≤ 255) (names ids : List String) (hids : ids.length ≤ limit) :
+    ∀ id ∈ assignLocalIds limit ids names, id = noLocalId ∨ id < limit := by
+  induction names generalizing ids with
+  | nil => simp [assignLocalIds]
+  | cons n ns ih =>
+    intro id hid
+    simp only [assignLocalIds, List.mem_cons] at hid
+    have hb := getLocalId_bounded limit hl ids n hids
+    rcases hid with rfl | hid
+    · exact hb.1
+    · exact ih _ hb.2 id hid
+
+/-- **filter / test caches**: whatever names a template uses, in whatever order and number, the VM's
+    `loaded_filters[idx] = …` / `loaded_tests[idx] = …` is in bounds: the ids come from `get_local_id` with
+    `MAX_LOCALS` (regenerated from instructions.rs), the arrays have `vmLocalSlots` entries (regenerated
+    from vm/mod.rs) -/
+theorem localIds_in_bounds (names : List String) :
+    ∀ id ∈ assignLocalIds Gen.maxLocals [] names, lookupLocal Gen.vmLocalSlots id ≠ .panic := by
+  intro id hid
+  have hlim : Gen.maxLocals ≤ 255 ∧ Gen.maxLocals ≤ Gen.vmLocalSlots ∧ Gen.localIdBits = 8 := by decide
+  have := assignLocalIds_bounded Gen.maxLocals hlim.1 names [] (Nat.zero_le _) id hid
+  unfold lookupLocal
+  rcases this with h | h
+  · simp [h]
+  · by_cases h2 : id = noLocalId
+    · simp [h2]
+    · simp only [h2, if_false]
+      rw [if_pos (by omega)]
+      simp
+
+/-- the off-by-one variant (`len > MAX_LOCALS`): the 51st distinct name gets id 50, one past the cache -/
+example : (Legacy.getLocalIdGt 50 ((List.range 50).map toString) "x").2 = 50 ∧ lookupLocal 50 50 = .panic := by decide
+example : (getLocalId 50 ((List.range 50).map toString) "x").2 = noLocalId := by decide
+
 theorem kernels_never_panic : KernelsNeverPanic :=
   ⟨fun _ xs a b c ha hb hc hl => slice_no_panic xs a b c ha hb hc hl, range_no_panic, cycle_no_panic,
    mulStr_no_panic, repeatSeq_no_panic, indent_no_panic, tojsonIndent_no_panic, fmtWidth_no_panic,
